@@ -95,6 +95,8 @@ FILLER = [
     "ff = 'x\x0cy'  # page\x0cbreak",
     "nel = 'n\x85l'  # \x1c\x1d\x1e",
     "long = '" + "0123456789" * 40 + "'  # a very long line",
+    "w2 = x + \\\n\\\n    1  # a line that holds nothing but the continuation backslash",
+    "w3 = (x,\n\\\n      y)",
 ]
 RAISERS = [
     "raise exc(*args)",
@@ -186,7 +188,7 @@ MESSAGES = [
     "a <b", "tail<", "</>", "<fg=red>r</fg=blue>", "50% <done>", "quote \" and ' here", "key", "a" * 120,
     "line1\\\nline2", "<error>", "if a<b>c: pass", "{} {0} %s",
     # closes a tag it did not open and leaves another one open; leaves one open; closes unopened ones
-    "\n\n", "trailing line end\n", "</info> x <error>", "</b> y <info>z", "a closing </b> tag", "</error>", "<fg=red>r", "x</fg=blue> <b>",
+    "\n\n", "trailing line end\n", "no type List<int> in <module>", "expected <class 'int'>, got <object at 0x1>", "</info> x <error>", "</b> y <info>z", "a closing </b> tag", "</error>", "<fg=red>r", "x</fg=blue> <b>",
 ]
 EXC_KINDS = ["RuntimeError", "ValueError", "KeyError", "OSError", "long", "clikit", "ZeroDivisionError", "TypeError"]
 
@@ -457,6 +459,12 @@ def _link_context(e, ctx):
         e.__context__ = a
 
 
+def _ansi_formatter():
+    from clikit.formatter import AnsiFormatter
+
+    return AnsiFormatter()
+
+
 def run_history(case, shared=None):
     """the case's exception is raised once and rendered once per entry of case["renders"] ([{"pat", "verb"}]; pat = which
     directory ignore_files_in() gets: "none" | "lib" | "app") in this process -> one "render" event per render"""
@@ -476,7 +484,12 @@ def run_history(case, shared=None):
         frames = [dict(f, ign=(f["dir"] == r["pat"])) for f in base]
         utf8 = r.get("utf8", case["utf8"])
         # a fresh I/O per render - or one I/O (one formatter with its style stack) for everything: shared[0]
-        bio = BufferedIO(supports_utf8=utf8) if shared is None else shared[0]
+        if shared is None:
+            # the formatter route: BufferedIO's default PlainFormatter, or an AnsiFormatter on a stream that takes no ANSI
+            # codes (what DefaultApplicationConfig gives a redirected stream when --ansi is not forced): the same plain text
+            bio = BufferedIO(supports_utf8=utf8, formatter=_ansi_formatter() if r.get("ansi_fmt", case.get("ansi_fmt")) else None)
+        else:
+            bio = shared[0]
         if shared is not None:
             utf8 = bio.supports_utf8()
         bio.clear_output()
@@ -516,7 +529,7 @@ def run_trace(case):
         return run_history(dict(case, renders=renders_of(case)))
     from clikit.io.buffered_io import BufferedIO
 
-    shared = [BufferedIO(supports_utf8=case["utf8"])]
+    shared = [BufferedIO(supports_utf8=case["utf8"], formatter=_ansi_formatter() if case.get("ansi_fmt") else None)]
     second = case["then"]
     return (run_history(dict(case, renders=renders_of(case)), shared)
             + run_history(dict(second, renders=renders_of(second)), shared))
@@ -575,7 +588,7 @@ def random_render_case(rng):
         else:
             chain.append({"kind": "ping", "ign": rng.random() < 0.3, "n": rng.choice([1, 2, 5, 20])})
     kind = rng.choice(EXC_KINDS)
-    return {"solutions": origin == "file" and rng.random() < 0.25, "solshape": rng.choice(SOLUTION_SHAPES), "shape": rng.choice(NOT_PYTHON),
+    return {"ansi_fmt": rng.random() < 0.4, "solutions": origin == "file" and rng.random() < 0.25, "solshape": rng.choice(SOLUTION_SHAPES), "shape": rng.choice(NOT_PYTHON),
             "compiled": rng.random() < 0.4, "ctx": rng.choice(["none"] * 14 + ["long1200", "long1500", "circular", "circular"]),
             "origin": origin, "fname": rng.choice(["</error>", "<b>", "x</info>y", "<template>", "dir\\"]),
             "src": make_source(rng, at_top=rng.random() < 0.15), "exc": kind, "msg": rng.choice(MESSAGES),
@@ -777,8 +790,9 @@ def run(ctx):
         "Non-trivial: the traceback has >= 2 frames or the message / the snippet window contains markup-like text"
     )
     ctx.assumptions += [
-        "'style markup aside': the shown message is the message from which some tag-shaped pieces <...> (no blank, < or > "
-        "inside) and some backslashes standing before < have been left out; indentation and trailing blanks aside",
+        "'style markup aside': the shown message is the message from which some STYLE tags (<name>, </name>, </> with name a "
+        "style of the default style set or a fg=/bg=/options= definition) and some backslashes standing before < have been left "
+        "out; angle-bracket text that is no style (List<int>, <module>) must be shown; indentation and trailing blanks aside",
         "the message is str(exception); the class name is type(exception).__name__; exceptions are raised (have a traceback)",
         "output observed on a BufferedIO (plain formatter); the failing line is tb_lineno of the innermost traceback entry",
         "a snippet row is any line '[marker] number delimiter text' below a frame header; rows are compared with the source "
